@@ -408,7 +408,13 @@ def gen_server_case(real, rng, cid, n_iter=50, n_clients=3, hostile=0.3, mtu=150
                         if n >= 2 and rng.random() < stack:
                             # the peer holds the session key but never answers the challenge: ONE sealed datagram of type
                             # CHALLENGE_RESP carrying n CLIENT_HELLO messages, then silence
-                            body = b"".join(struct.pack(">HHB", len(hp), 100 + i, C.PacketType.CLIENT_HELLO.value) + hp for i in range(n))
+                            if rng.random() < 0.4:
+                                # ... or n application messages: they are queued on a connection that is never promoted and must
+                                # never reach the handler (no connect event, no message event)
+                                ap = [bytes(rng.getrandbits(8) for _ in range(rng.choice([1, 4, 20]))) for _ in range(n)]
+                                body = b"".join(struct.pack(">HHB", len(x), 100 + i, C.PacketType.APP.value) + x for i, x in enumerate(ap))
+                            else:
+                                body = b"".join(struct.pack(">HHB", len(hp), 100 + i, C.PacketType.CLIENT_HELLO.value) + hp for i in range(n))
                             items.append((cl["addr"], None, "!3,%d,%d,%d,%d,%d:%s:%s" % (
                                 (int(conn.seq_sending) % 65535) + 1, int(conn.bitfield_pkt.current_seqnum), conn.bitfield_pkt.bits,
                                 tq // 1024, n, body.hex(), conn.session_key_bytes.hex())))
